@@ -135,10 +135,10 @@ class StatusV(Model):
 
 def install(ctx):
     M = ctx.models
+    ctx.default_models = {}
     install_http(ctx)
     ctx.tok_kinds = {}
     ctx.tok_ord = {}
-    ctx.default_models = {}
 
     # ---------------------------------------------------------- Arc / Weak / Box
     @M.reg('Arc::new', 'Box::new', 'Rc::new', 'Arc::pin', 'Box::pin')
@@ -334,6 +334,20 @@ def install_http(ctx):
         if isinstance(r, HttpResponseM):
             return S(r.status, 'StatusCode')
         return NotImplemented
+
+    @M.reg('reqwest::Error::status', 'Error::status')
+    def err_status(ip, pc, args, dt):
+        # reqwest: a status is attached only by error_for_status(); send() errors (connect, timeout, body, redirect) carry none
+        from models_core import NONE
+        e = read_loc(args[0].loc) if isinstance(args[0], Ref) else args[0]
+        if isinstance(e, Opaque) and e.tag == 'reqwest::Error':
+            return NONE
+        return NotImplemented
+
+    # http::StatusCode::default() is 200 OK
+    if not hasattr(ctx, 'default_models'):
+        ctx.default_models = {}
+    ctx.default_models['StatusCode'] = lambda ip: S(z3.IntVal(200), 'StatusCode')
 
     @M.reg('<StatusCode as Into>::into', '<u16 as From>::from', 'StatusCode::as_u16')
     def status_into(ip, pc, args, dt):
